@@ -1,5 +1,6 @@
 import EIO.Model.Session
 import EIO.Lemmas.World
+import EIO.Lemmas.Acc
 /-
 The invariant of the session model and the step relation every function of the
 model satisfies, with the lemmas for the primitive updates.
@@ -29,6 +30,21 @@ def LogOK (l : List (Nat × SEv)) : Prop :=
 structure SockOK (s : Sock) : Prop where
   cb : s.rs = .closed → s.sentCb = []
   dc : s.drainClose.isSome → s.rs = .closing ∨ s.rs = .closed
+  cu : s.cand.isSome → s.upgraded = false
+
+/-- the accounts of one session: everything accepted is handed over or still buffered (unless the
+    session closed, which drops the rest), callbacks likewise, one `upgrade` entry iff upgraded -/
+structure AccS (s : Sock) (sid : Nat) (l : List (Nat × SEv)) : Prop where
+  pk : ∃ rest, createdPkts sid l = flushedPkts sid l ++ rest ∧ (s.rs ≠ .closed → rest = s.wbuf)
+  cb : ∃ rest, createdCbs sid l = flushedCbs sid l ++ rest ∧ (s.rs ≠ .closed → rest = s.packetsFn)
+  run : ∃ rest, flushedCbs sid l = ranCbs sid l ++ rest ∧ (s.rs ≠ .closed → rest = s.sentCb.flatten)
+  up : upgradeCount sid l = (if s.upgraded then 1 else 0)
+
+structure AccInv (w : World) : Prop where
+  ses : ∀ sid, AccS (w.sock sid) sid w.slog
+  fresh : ∀ e ∈ w.slog, e.2.accNeutral = false → e.1 < w.socks.size
+  hist : LogHist w.slog
+  tight : FlushTight w.slog
 
 structure Inv (w : World) : Prop where
   logOK : LogOK w.slog
@@ -38,6 +54,7 @@ structure Inv (w : World) : Prop where
   regLive : ∀ sid ∈ w.registry, ¬ closedW w sid ∧ sid < w.socks.size ∧ (w.sock sid).announced = true
   regNodup : w.registry.Nodup
   annReg : ∀ sid, (w.sock sid).announced = true → sid ∈ w.registry ∨ closedW w sid
+  acc : AccInv w
 
 def ReqsExt (w w' : World) : Prop :=
   w.reqs.size ≤ w'.reqs.size ∧
@@ -151,16 +168,91 @@ structure SockSame (s s' : Sock) : Prop where
   drainClose : s'.drainClose = s.drainClose
   announced : s'.announced = s.announced
   proto : s'.proto = s.proto
+  wbuf : s'.wbuf = s.wbuf
+  packetsFn : s'.packetsFn = s.packetsFn
+  upgraded : s'.upgraded = s.upgraded
+  candm : s'.cand.isSome → s.cand.isSome
 
-theorem SockSame.refl (s : Sock) : SockSame s s := ⟨rfl, rfl, rfl, rfl, rfl⟩
+theorem SockSame.refl (s : Sock) : SockSame s s := ⟨rfl, rfl, rfl, rfl, rfl, rfl, rfl, rfl, id⟩
 theorem SockSame.trans {a b c : Sock} (h1 : SockSame a b) (h2 : SockSame b c) : SockSame a c :=
   ⟨h2.rs.trans h1.rs, h2.sentCb.trans h1.sentCb, h2.drainClose.trans h1.drainClose,
-   h2.announced.trans h1.announced, h2.proto.trans h1.proto⟩
+   h2.announced.trans h1.announced, h2.proto.trans h1.proto, h2.wbuf.trans h1.wbuf,
+   h2.packetsFn.trans h1.packetsFn, h2.upgraded.trans h1.upgraded, fun h => h1.candm (h2.candm h)⟩
+
+/-- the accounts of a session only read its closedness and four fields -/
+theorem AccS.congr {s s' : Sock} {sid : Nat} {l : List (Nat × SEv)} (h : AccS s sid l)
+    (hrs : s'.rs = .closed ↔ s.rs = .closed) (hw : s'.wbuf = s.wbuf) (hp : s'.packetsFn = s.packetsFn)
+    (hc : s'.sentCb = s.sentCb) (hu : s'.upgraded = s.upgraded) : AccS s' sid l := by
+  obtain ⟨r1, e1, i1⟩ := h.pk
+  obtain ⟨r2, e2, i2⟩ := h.cb
+  obtain ⟨r3, e3, i3⟩ := h.run
+  exact ⟨⟨r1, e1, fun hn => by rw [hw]; exact i1 (fun x => hn (hrs.mpr x))⟩,
+         ⟨r2, e2, fun hn => by rw [hp]; exact i2 (fun x => hn (hrs.mpr x))⟩,
+         ⟨r3, e3, fun hn => by rw [hc]; exact i3 (fun x => hn (hrs.mpr x))⟩,
+         by rw [hu]; exact h.up⟩
+
+theorem AccS.same {s s' : Sock} {sid : Nat} {l : List (Nat × SEv)} (h : AccS s sid l) (v : SockSame s s') :
+    AccS s' sid l :=
+  h.congr (by rw [v.rs]) v.wbuf v.packetsFn v.sentCb v.upgraded
+
+/-- an entry that does not enter the accounts -/
+theorem AccS.snoc_neutral {s : Sock} {sid : Nat} {l : List (Nat × SEv)} (h : AccS s sid l) (x : Nat) (e : SEv)
+    (hn : e.accNeutral = true) : AccS s sid (l ++ [(x, e)]) := by
+  obtain ⟨a, b, c, d, e', f⟩ := proj_snoc_neutral sid x e l hn
+  obtain ⟨r1, e1, i1⟩ := h.pk
+  obtain ⟨r2, e2, i2⟩ := h.cb
+  obtain ⟨r3, e3, i3⟩ := h.run
+  exact ⟨⟨r1, by rw [a, c]; exact e1, i1⟩, ⟨r2, by rw [b, d]; exact e2, i2⟩, ⟨r3, by rw [d, e']; exact e3, i3⟩,
+         by rw [f]; exact h.up⟩
+
+/-- the accounts say what `HistAt` asks for -/
+theorem AccS.histAt {s : Sock} {sid : Nat} {l : List (Nat × SEv)} (h : AccS s sid l) : HistAt sid l := by
+  obtain ⟨r1, e1, _⟩ := h.pk
+  obtain ⟨r2, e2, _⟩ := h.cb
+  obtain ⟨r3, e3, _⟩ := h.run
+  refine ⟨⟨r1, e1.symm⟩, ⟨r2, e2.symm⟩, ⟨r3, e3.symm⟩, ?_⟩
+  rw [h.up]; split <;> omega
+
+theorem AccInv.of_view {w w' : World} (a : AccInv w) (hlog : w'.slog = w.slog) (hsz : w'.socks.size = w.socks.size)
+    (hs : ∀ j, SockSame (w.sock j) (w'.sock j)) : AccInv w' :=
+  ⟨fun j => by rw [hlog]; exact (a.ses j).same (hs j),
+   fun e he hn => by rw [hlog] at he; rw [hsz]; exact a.fresh e he hn,
+   by rw [hlog]; exact a.hist, by rw [hlog]; exact a.tight⟩
+
+/-- a step that appends one neutral entry and keeps every session's accounts -/
+theorem AccInv.snoc_neutral {w w' : World} (a : AccInv w) (x : Nat) (e : SEv) (hn : e.accNeutral = true)
+    (hlog : w'.slog = w.slog ++ [(x, e)]) (hsz : w.socks.size ≤ w'.socks.size)
+    (hs : ∀ j, AccS (w.sock j) j w.slog → AccS (w'.sock j) j w.slog) : AccInv w' := by
+  refine ⟨fun j => ?_, fun y hy hf => ?_, ?_, ?_⟩
+  · rw [hlog]; exact (hs j (a.ses j)).snoc_neutral x e hn
+  · rw [hlog] at hy
+    rcases List.mem_append.mp hy with h | h
+    · exact Nat.lt_of_lt_of_le (a.fresh y h hf) hsz
+    · have : y = (x, e) := by simpa using h
+      subst this; rw [hn] at hf; cases hf
+  · rw [hlog]
+    exact logHist_snoc _ _ a.hist (fun j => histAt_snoc_neutral j x e _ hn (a.hist _ (List.prefix_refl _) j))
+  · rw [hlog]
+    refine flushTight_snoc _ _ a.tight (fun j b c hx => ?_)
+    have : e = SEv.flush b c := by
+      have := congrArg Prod.snd hx; simpa using this
+    subst this; cases hn
+
+theorem AccInv.sev_neutral {w : World} (a : AccInv w) (sid : Nat) (e : SEv) (hn : e.accNeutral = true) :
+    AccInv (w.sev sid e) :=
+  a.snoc_neutral sid e hn (slog_sev w sid e) (by simp) (fun j h => by rw [sock_sev]; exact h)
 
 /-- nothing the invariant looks at has changed, requests may have been added or answered -/
 structure SameView (w w' : World) : Prop where
   size : w'.socks.size = w.socks.size
   sock : ∀ j, SockSame (w.sock j) (w'.sock j)
+  slog : w'.slog = w.slog
+  registry : w'.registry = w.registry
+  reqs : ReqsExt w w'
+
+/-- the world-level part of `SameView` alone (sessions may differ) -/
+structure SameView' (w w' : World) : Prop where
+  size : w'.socks.size = w.socks.size
   slog : w'.slog = w.slog
   registry : w'.registry = w.registry
   reqs : ReqsExt w w'
@@ -175,7 +267,7 @@ theorem SameView.closedW {w w' : World} (h : SameView w w') (sid : Nat) : closed
 
 theorem SameView.pres {w w' : World} (h : SameView w w') : Pres w w' := by
   intro i
-  refine ⟨⟨?_, ?_, ?_, ?_, ?_, ?_, ?_⟩, ⟨?_, ?_, h.reqs, Nat.le_of_eq h.size.symm, ?_, ?_, ?_⟩⟩
+  refine ⟨⟨?_, ?_, ?_, ?_, ?_, ?_, ?_, i.acc.of_view h.slog h.size h.sock⟩, ⟨?_, ?_, h.reqs, Nat.le_of_eq h.size.symm, ?_, ?_, ?_⟩⟩
   · rw [h.slog]; exact i.logOK
   · intro sid hc; rw [h.slog] at hc; exact (h.closedW sid).mpr (i.logClosed sid hc)
   · intro sid hc; rw [h.slog]; exact i.closedLog sid ((h.closedW sid).mp hc)
@@ -183,7 +275,8 @@ theorem SameView.pres {w w' : World} (h : SameView w w') : Pres w w' := by
     have s := h.sock sid
     have o := i.sockOK sid
     exact ⟨fun hc => by rw [s.sentCb]; exact o.cb (by rw [← s.rs]; exact hc),
-           fun hd => by rw [s.rs]; exact o.dc (by rw [← s.drainClose]; exact hd)⟩
+           fun hd => by rw [s.rs]; exact o.dc (by rw [← s.drainClose]; exact hd),
+           fun hd => by rw [s.upgraded]; exact o.cu (s.candm hd)⟩
   · intro sid hm
     rw [h.registry] at hm
     obtain ⟨a, b, c⟩ := i.regLive sid hm
@@ -254,13 +347,13 @@ theorem sameView_trSend (w : World) (ti : Nat) (batch : List Pkt) : SameView w (
   exact ⟨rfl, fun _ => SockSame.refl _, rfl, rfl, ReqsExt.refl _⟩
 
 /-- an event of a session that is not closed -/
-theorem pres_sev (w : World) (sid : Nat) (e : SEv) (hnc : e.final = true → ¬ closedW w sid) (he : e.isClose = false) :
-    Pres w (w.sev sid e) := by
+theorem pres_sev (w : World) (sid : Nat) (e : SEv) (hnc : e.final = true → ¬ closedW w sid) (he : e.isClose = false)
+    (hn : e.accNeutral = true) : Pres w (w.sev sid e) := by
   intro i
   have hcw : ∀ j, closedW (w.sev sid e) j ↔ closedW w j := fun j => by unfold closedW; simp
   have hci : ∀ j, closeIn j (w.slog ++ [(sid, e)]) ↔ closeIn j w.slog := fun j => by
     rw [closeIn_append, closeIn_single]; simp [he]
-  refine ⟨⟨?_, ?_, ?_, ?_, ?_, ?_, ?_⟩, ⟨?_, ?_, ?_, ?_, ?_, ?_, ?_⟩⟩
+  refine ⟨⟨?_, ?_, ?_, ?_, ?_, ?_, ?_, i.acc.sev_neutral sid e hn⟩, ⟨?_, ?_, ?_, ?_, ?_, ?_, ?_⟩⟩
   · rw [slog_sev]
     exact logOK_snoc _ _ i.logOK (fun hf hc => hnc hf (i.logClosed sid hc))
   · intro j hc; rw [slog_sev, hci] at hc; exact (hcw j).mpr (i.logClosed j hc)
@@ -297,7 +390,9 @@ theorem pres_setSock (w : World) (sid : Nat) (f : Sock → Sock)
     (hcl : (f (w.sock sid)).rs = .closed ↔ (w.sock sid).rs = .closed)
     (hann : (f (w.sock sid)).announced = (w.sock sid).announced)
     (hproto : (f (w.sock sid)).proto = (w.sock sid).proto)
-    (hok : sid < w.socks.size → SockOK (w.sock sid) → SockOK (f (w.sock sid))) : Pres w (w.setSock sid f) := by
+    (hok : sid < w.socks.size → SockOK (w.sock sid) → SockOK (f (w.sock sid)))
+    (hacc : sid < w.socks.size → AccS (w.sock sid) sid w.slog → AccS (f (w.sock sid)) sid w.slog) :
+    Pres w (w.setSock sid f) := by
   intro i
   have hs : ∀ j, (w.setSock sid f).sock j = w.sock j ∨
       (j = sid ∧ sid < w.socks.size ∧ (w.setSock sid f).sock j = f (w.sock sid)) := fun j => by
@@ -309,7 +404,12 @@ theorem pres_setSock (w : World) (sid : Nat) (f : Sock → Sock)
     rcases hs j with h | ⟨hj, hz, h⟩
     · rw [h]
     · rw [h, hj]; exact hcl
-  refine ⟨⟨i.logOK, ?_, ?_, ?_, ?_, i.regNodup, ?_⟩, ⟨?_, ⟨[], by simp⟩, ReqsExt.refl _, by simp, ?_, ?_, fun j hm => Or.inl hm⟩⟩
+  have hacc' : AccInv (w.setSock sid f) := by
+    refine ⟨fun j => ?_, fun e he hn => by simpa using i.acc.fresh e he hn, i.acc.hist, i.acc.tight⟩
+    rcases hs j with h | ⟨hj, hz, h⟩
+    · rw [h]; exact i.acc.ses j
+    · rw [h, hj]; exact hacc hz (i.acc.ses sid)
+  refine ⟨⟨i.logOK, ?_, ?_, ?_, ?_, i.regNodup, ?_, hacc'⟩, ⟨?_, ⟨[], by simp⟩, ReqsExt.refl _, by simp, ?_, ?_, fun j hm => Or.inl hm⟩⟩
   · intro j hc; exact (hcw j).mpr (i.logClosed j hc)
   · intro j hc; exact i.closedLog j ((hcw j).mp hc)
   · intro j
@@ -345,7 +445,8 @@ theorem pres_setSock (w : World) (sid : Nat) (f : Sock → Sock)
 
 /-- a new session record: not announced, not registered, opening -/
 theorem pres_pushSock (w : World) (s0 : Sock) (hrs : s0.rs = .opening) (hann : s0.announced = false)
-    (hdc : s0.drainClose = none) : Pres w { w with socks := w.socks.push s0 } := by
+    (hdc : s0.drainClose = none) (hwb : s0.wbuf = []) (hpf : s0.packetsFn = []) (hsc : s0.sentCb = [])
+    (hup : s0.upgraded = false) (hcand : s0.cand = none) : Pres w { w with socks := w.socks.push s0 } := by
   intro i
   have hs : ∀ j, ({ w with socks := w.socks.push s0 } : World).sock j = w.sock j ∨
       (j = w.socks.size ∧ w.sock j = default ∧ ({ w with socks := w.socks.push s0 } : World).sock j = s0) := fun j => by
@@ -361,16 +462,43 @@ theorem pres_pushSock (w : World) (s0 : Sock) (hrs : s0.rs = .opening) (hann : s
     rcases hs j with h | ⟨_, hd, h⟩
     · rw [h]
     · rw [h, hd, hrs]; simp [default, instInhabitedSock.default]
-  refine ⟨⟨i.logOK, ?_, ?_, ?_, ?_, i.regNodup, ?_⟩, ⟨?_, ⟨[], by simp⟩, ReqsExt.refl _, by simp, ?_, ?_, fun j hm => Or.inl hm⟩⟩
+  have hacc' : AccInv ({ w with socks := w.socks.push s0 } : World) := by
+    refine ⟨fun j => ?_, fun e he hn => ?_, i.acc.hist, i.acc.tight⟩
+    · rcases hs j with h | ⟨hj, _, h⟩
+      · rw [h]; exact i.acc.ses j
+      · rw [h]
+        -- nothing of the new index has entered the accounts
+        have hfr : ∀ e ∈ w.slog, e.2.accNeutral = false → e.1 ≠ j := fun e he hn => by
+          have := i.acc.fresh e he hn; omega
+        have e1 : createdPkts j w.slog = [] := proj_empty_of_fresh _ _ _ (fun e h => (neutral_created e h).1) hfr
+        have e2 : createdCbs j w.slog = [] := proj_empty_of_fresh _ _ _ (fun e h => (neutral_created e h).2) hfr
+        have e3 : flushedPkts j w.slog = [] := proj_empty_of_fresh _ _ _ (fun e h => (neutral_flushed e h).1) hfr
+        have e4 : flushedCbs j w.slog = [] := proj_empty_of_fresh _ _ _ (fun e h => (neutral_flushed e h).2) hfr
+        have e5 : ranCbs j w.slog = [] := proj_empty_of_fresh _ _ _ (fun e h => (neutral_ran e h).1) hfr
+        have e6 : proj fUpgrade j w.slog = [] := proj_empty_of_fresh _ _ _ (fun e h => (neutral_ran e h).2) hfr
+        refine ⟨⟨[], ?_, fun _ => hwb.symm⟩, ⟨[], ?_, fun _ => hpf.symm⟩, ⟨[], ?_, fun _ => by rw [hsc]; rfl⟩, ?_⟩
+        · show createdPkts j w.slog = flushedPkts j w.slog ++ []
+          rw [e1, e3]; rfl
+        · show createdCbs j w.slog = flushedCbs j w.slog ++ []
+          rw [e2, e4]; rfl
+        · show flushedCbs j w.slog = ranCbs j w.slog ++ []
+          rw [e4, e5]; rfl
+        · show upgradeCount j w.slog = _
+          unfold upgradeCount; rw [e6, hup]; rfl
+    · have := i.acc.fresh e he hn
+      show e.1 < (w.socks.push s0).size
+      simp; omega
+  refine ⟨⟨i.logOK, ?_, ?_, ?_, ?_, i.regNodup, ?_, hacc'⟩, ⟨?_, ⟨[], by simp⟩, ReqsExt.refl _, by simp, ?_, ?_, fun j hm => Or.inl hm⟩⟩
   · intro j hc; exact (hcw j).mpr (i.logClosed j hc)
   · intro j hc; exact i.closedLog j ((hcw j).mp hc)
   · intro j
     rcases hs j with h | ⟨_, _, h⟩
     · rw [h]; exact i.sockOK j
     · rw [h]
-      refine ⟨fun hc => ?_, fun hd => ?_⟩
+      refine ⟨fun hc => ?_, fun hd => ?_, fun hd => ?_⟩
       · rw [hrs] at hc; cases hc
       · rw [hdc] at hd; cases hd
+      · rw [hcand] at hd; cases hd
   · intro j hm
     obtain ⟨a, b, c⟩ := i.regLive j hm
     refine ⟨fun hc => a ((hcw j).mp hc), by simp; omega, ?_⟩
@@ -411,9 +539,9 @@ theorem pres_register (w : World) (sid : Nat) (hsz : sid < w.socks.size) (hnew :
     · subst hj
       have : (({ w with registry := w.registry ++ [sid] } : World).socks.size) = w.socks.size := rfl
       simp only [this, hsz, and_self, if_true]
-      exact ⟨⟨rfl, rfl, rfl, rfl, rfl⟩, by simp⟩
+      exact ⟨⟨rfl, rfl, rfl, rfl, rfl, rfl, rfl, rfl, id⟩, by simp⟩
     · simp only [hj, false_and, if_false]
-      refine ⟨⟨rfl, rfl, rfl, rfl, rfl⟩, ?_⟩
+      refine ⟨⟨rfl, rfl, rfl, rfl, rfl, rfl, rfl, rfl, id⟩, ?_⟩
       have : (j == sid) = false := by simp; exact fun h => hj h.symm
       rw [this]; simp
       rfl
@@ -422,7 +550,15 @@ theorem pres_register (w : World) (sid : Nat) (hsz : sid < w.socks.size) (hnew :
   have hlog : w'.slog = w.slog := by rw [← hw']; rfl
   have hreg : w'.registry = w.registry ++ [sid] := by rw [← hw']; rfl
   have hsize : w'.socks.size = w.socks.size := by rw [← hw']; simp
-  refine ⟨⟨by rw [hlog]; exact i.logOK, ?_, ?_, ?_, ?_, ?_, ?_⟩, ⟨?_, ⟨[], by simp [hlog]⟩, ?_, Nat.le_of_eq hsize.symm, ?_, ?_, ?_⟩⟩
+  have hacc' : AccInv w' := by
+    refine ⟨fun j => ?_, fun e he hn => by rw [hlog] at he; rw [hsize]; exact i.acc.fresh e he hn,
+      by rw [hlog]; exact i.acc.hist, by rw [hlog]; exact i.acc.tight⟩
+    rw [hlog]
+    have s := (hs j).1
+    have h1 := s.wbuf; have h2 := s.packetsFn; have h3 := s.sentCb; have h4 := s.upgraded
+    simp only at h1 h2 h3 h4
+    exact (i.acc.ses j).congr (by rw [hrs]) h1 h2 h3 h4
+  refine ⟨⟨by rw [hlog]; exact i.logOK, ?_, ?_, ?_, ?_, ?_, ?_, hacc'⟩, ⟨?_, ⟨[], by simp [hlog]⟩, ?_, Nat.le_of_eq hsize.symm, ?_, ?_, ?_⟩⟩
   · intro j hc; rw [hlog] at hc; exact (hcw j).mpr (i.logClosed j hc)
   · intro j hc; rw [hlog]; exact i.closedLog j ((hcw j).mp hc)
   · intro j
@@ -432,7 +568,10 @@ theorem pres_register (w : World) (sid : Nat) (hsz : sid < w.socks.size) (hnew :
              have := s.sentCb; simp only at this; rw [this]; exact o.cb (by rw [← hrs]; exact hc),
            fun hd => by
              have h1 := s.drainClose; simp only at h1
-             rw [hrs]; exact o.dc (by rw [← h1]; exact hd)⟩
+             rw [hrs]; exact o.dc (by rw [← h1]; exact hd),
+           fun hd => by
+             have h1 := s.upgraded; have h2 := s.candm; simp only at h1 h2
+             rw [h1]; exact o.cu (h2 hd)⟩
   · intro j hm
     rw [hreg] at hm
     rcases List.mem_append.mp hm with h | h
